@@ -15,7 +15,7 @@ RULE = ('cases = 4 base models (pair with custom and table forms; EAM; Finnis-Si
         'Configuration.read and potable; plus the un-duplicated controls, whose tabulated functions must follow their single definition')
 ASSUMPTIONS = [
     'a duplicate is "rejected" when Configuration().read raises a ConfigurationException subclass and potable reports "configuration error" (exit 2) and writes no non-empty table',
-    'pymath.* names and ADP dipole/quadrupole sections are not in the statement list (pair, density, embedding, custom form, table form)',
+    'pymath.* names are not in the statement list (pair, density, embedding, custom form, table form); ADP dipole / quadrupole entries are treated as pair interactions',
 ]
 BOUNDS = {'quick': '4 models, every entry, 20 operators, 3 positions', 'thorough': 'same space (already complete) through both routes for every case'}
 
@@ -37,17 +37,21 @@ def models():
               ['Pair', [['Al-Cu', '>=0 as.morse 1.3 2.05 0.35']]]])
     rev = Ini([['Tabulation', [['target', 'GULP'], ['nr', '4'], ['cutoff', '2.0']]],
                ['Pair', [['U-O', '>=0 as.polynomial 1.0 2.0'], ['Si-Al', '>=0 as.polynomial 2.0 3.0'], ['O-Mg', '>=0 as.polynomial 3.0 4.0'], ['Al-O', '>=0 as.polynomial 4.0 5.0']]]])
-    return {'pair': pair, 'eam': eam, 'fs': fs, 'rev': rev}
+    adp = eam.copy()
+    adp.section('Tabulation')[1][0][1] = 'eam_adp'
+    adp.sections.append(['EAM-ADP-Dipole', [['Al-Al', '>=0 as.polynomial 0.5 -0.2 0.01'], ['Cu-Al', '>=0 as.polynomial 0.6 -0.2 0.01']]])
+    adp.sections.append(['EAM-ADP-Quadrupole', [['Cu-Cu', '>=0 as.morse 0.75 1.3 0.2'], ['Al-Cu', '>=0 as.morse 0.85 1.3 0.21']]])
+    return {'pair': pair, 'eam': eam, 'fs': fs, 'rev': rev, 'adp': adp}
 
 
-ALT = {'Pair': '>=0 as.polynomial 7.5 -0.25', 'EAM-Embed': '>=0 as.polynomial 9.5 -0.75', 'EAM-Density': '>=0 as.polynomial 8.5 0.125',
+ALT = {'EAM-ADP-Dipole': '>=0 as.polynomial 6.5 -0.5', 'EAM-ADP-Quadrupole': '>=0 as.polynomial 5.5 0.5', 'Pair': '>=0 as.polynomial 7.5 -0.25', 'EAM-Embed': '>=0 as.polynomial 9.5 -0.75', 'EAM-Density': '>=0 as.polynomial 8.5 0.125',
        'Potential-Form': '42.0 + r'}
 
 
 def key_variants(section, key):
     """(operator name, duplicate key text) pairs for one entry"""
     out = [('identical', key)]
-    if section == 'Pair':
+    if section in ('Pair', 'EAM-ADP-Dipole', 'EAM-ADP-Quadrupole'):
         a, b = key.split('-')
         out += [('ws:A - B', '%s - %s' % (a, b)), ('ws:A -B', '%s -%s' % (a, b)), ('ws:tab', '%s\t-\t%s' % (a, b)),
                 ('ws:no-break-space', '%s\u00a0-\u00a0%s' % (a, b)), ('ws:ideographic-space', '%s\u3000-%s' % (a, b))]
@@ -76,7 +80,7 @@ def cases(tier):
         ini = M[mname]
         out.append(dict(model=mname, op='control', sections=ini.to_json()))
         for si, (sname, entries) in enumerate(ini.sections):
-            if sname in ('Pair', 'EAM-Embed', 'EAM-Density', 'Potential-Form'):
+            if sname in ('Pair', 'EAM-Embed', 'EAM-Density', 'Potential-Form', 'EAM-ADP-Dipole', 'EAM-ADP-Quadrupole'):
                 for ei, (k, v) in enumerate(entries):
                     for opname, dupkey in key_variants(sname, k):
                         for pos in ('after', 'end', 'start'):
@@ -98,7 +102,8 @@ def cases(tier):
                                                 orig=[sname, k]))
             if sname.startswith('Table-Form:'):
                 name = sname.split(':', 1)[1]
-                for opname, header in (('table:identical', 'Table-Form:%s' % name), ('table:ws-before', 'Table-Form: %s' % name), ('table:ws-after', 'Table-Form:%s ' % name)):
+                for opname, header in (('table:identical', 'Table-Form:%s' % name), ('table:ws-before', 'Table-Form: %s' % name), ('table:ws-after', 'Table-Form:%s ' % name),
+                                       ('table:ws-before-colon', 'Table-Form :%s' % name), ('table:tab-before-colon', 'Table-Form\t:%s' % name)):
                     d = ini.copy()
                     d.sections.append([header, [['x', '0 1 2 3'], ['y', '9 9 9 9']]])
                     out.append(dict(model=mname, op=opname, pos='end', sep=':', sections=d.to_json(), dup=[header, ''], orig=[sname, '']))
@@ -109,7 +114,8 @@ def cases(tier):
                 d = ini.copy()
                 d.sections.insert(1, ['Potential-Form-placeholder', []])
                 d.sections.pop(1)
-                for other, opn in (('cbuck', 'table-named-like-formula'), ('as.buck', 'table-named-like-builtin'), ('as.zero', 'table-named-like-builtin')):
+                for other, opn in (('cbuck', 'table-named-like-formula'), ('as.buck', 'table-named-like-builtin'), ('as.zero', 'table-named-like-builtin'),
+                                   ('as.buck4', 'table-named-like-builtin-factory')):
                     d = ini.copy()
                     d.sections.append(['Table-Form:%s' % other, [['x', '0 1 2 3'], ['y', '9 9 9 9']]])
                     out.append(dict(model=mname, op=opn, pos='end', sep=':', sections=d.to_json(), dup=['Table-Form:%s' % other, ''], orig=['', other]))
@@ -122,6 +128,11 @@ def cases(tier):
             if ini.section(sname):
                 out.append(dict(model=mname, op='added-twice:%s' % sname, pos='end', sep=':', sections=ini.to_json(), dup=[sname, k2], orig=[sname, k1],
                                 additional=[[sname, k1, ALT[sname] if sname != 'Potential-Form' else 'A*r'], [sname, k2, 'as.zero' if sname != 'Potential-Form' else '2*A*r']]))
+        # a section name that differs from an existing one only by blanks, supplied through --add-item
+        for sname in ('Pair', 'EAM-Embed'):
+            if ini.section(sname):
+                out.append(dict(model=mname, op='added-section-blank-variant:%s' % sname, pos='end', sep=':', sections=ini.to_json(), dup=[sname + ' ', ''], orig=[sname, ''],
+                                additional=[[sname + ' ', 'Zz-Zz' if sname == 'Pair' else 'Zz', ALT[sname]]], hijack=True))
         # a repeated section
         for sname in ('Pair', 'Potential-Form', 'EAM-Embed'):
             if ini.section(sname):
@@ -137,11 +148,31 @@ def render(case):
     return ini.render(sep)
 
 
+def run_hijack(case, text, what, adds):
+    """adding an item to a section whose name differs only by blanks must not replace the real section: rejected, or the output is unchanged"""
+    from atsim.potentials.config import ConfigParser, Configuration
+    from atsim.potentials.config._common import ConfigurationException
+    viol = []
+    want = R.write_tabulation(R.config_read(text))
+    try:
+        cp = ConfigParser(io.StringIO(text), additional=adds)
+        got = R.write_tabulation(Configuration().read_from_parser(cp))
+        if got != want:
+            viol.append(dict(sig='section-hijacked:%s' % case['op'], msg='%s: adding %r replaced the real section: the table changed (%d -> %d bytes)' % (what, case['additional'], len(want), len(got)), detail={}))
+    except ConfigurationException:
+        pass
+    except Exception as e:  # noqa
+        viol.append(dict(sig='duplicate-internal-exception:%s:%s' % (case['op'], type(e).__name__), msg='%s: %s: %s' % (what, type(e).__name__, e), detail={}))
+    return dict(outcome='ok:hijack' if not viol else 'violation', nontrivial=True, evals=1, violations=viol)
+
+
 def run_additional(case, text, what):
     from atsim.potentials.config import ConfigParser, ConfigParserOverrideTuple as T
     from atsim.potentials.config._common import ConfigurationException
     viol = []
     adds = [T(*a) for a in case['additional']]
+    if case.get('hijack'):
+        return run_hijack(case, text, what, adds)
     try:
         cp = ConfigParser(io.StringIO(text), additional=adds)
         viol.append(dict(sig='duplicate-accepted:%s' % case['op'], msg='%s: ConfigParser(additional=%r) accepted both additions' % (what, case['additional']), detail={}))
